@@ -42,11 +42,13 @@ pub struct Layout {
     pub indent: bool,
     /// terminate the last line with an EOL
     pub final_eol: bool,
+    /// per mille of SUB calls written `CALL Name(args)` instead of `Name args`
+    pub call_kw: u32,
 }
 
 impl Layout {
     pub fn plain() -> Layout {
-        Layout { seed: 0, case_mode: 0, space_mode: 0, blank_lines: 0, comments: 0, colons: 0, eol: Eol::Lf, indent: true, final_eol: true }
+        Layout { seed: 0, case_mode: 0, space_mode: 0, blank_lines: 0, comments: 0, colons: 0, eol: Eol::Lf, indent: true, final_eol: true, call_kw: 0 }
     }
     pub fn describe(&self) -> String {
         format!("case{} space{} blank{} comm{} colon{} {:?}", self.case_mode, self.space_mode, self.blank_lines, self.comments, self.colons, self.eol)
@@ -172,6 +174,15 @@ impl<'a> Pr<'a> {
             }
         }
     }
+    /// the blank between a keyword and the expression that follows: optional when the expression opens with a parenthesis
+    /// (`NOT(A) = B`, `WHILE(X) < 3`, `CASE(1) + 2`)
+    fn sp_before(&mut self, expr_text: &str) -> String {
+        if self.lay.space_mode != 0 && expr_text.starts_with('(') && self.rnd(3) == 0 {
+            self.changed += 1;
+            return String::new();
+        }
+        self.sp()
+    }
     /// an optional blank (default one blank)
     fn osp(&mut self) -> String {
         if self.lay.space_mode == 0 {
@@ -247,8 +258,9 @@ impl<'a> Pr<'a> {
             Expr::Un(UnOp::Neg, x) => format!("-{}", self.expr(x)),
             Expr::Un(UnOp::Not, x) => {
                 let k = self.kw("NOT");
-                let sp = self.sp();
-                format!("{}{}{}", k, sp, self.expr(x))
+                let t = self.expr(x);
+                let sp = self.sp_before(&t);
+                format!("{}{}{}", k, sp, t)
             }
             Expr::Bin(op, a, b) => {
                 let l = self.expr(a);
@@ -256,7 +268,7 @@ impl<'a> Pr<'a> {
                 if op.is_word() {
                     let k = self.kw(op.text());
                     let s1 = self.sp();
-                    let s2 = self.sp();
+                    let s2 = self.sp_before(&r);
                     format!("{}{}{}{}{}", l, s1, k, s2, r)
                 } else {
                     let s1 = self.sp();
@@ -479,6 +491,26 @@ impl<'a> Pr<'a> {
             }
             Stmt::CallSub(p, args) => {
                 let name = self.prog.procs[*p].name.clone();
+                let call_kw = self.lay.call_kw;
+                if self.permille(call_kw) {
+                    // the long spelling: CALL Name(arg, arg)
+                    self.changed += 1;
+                    let mut t = self.kw("CALL");
+                    t.push_str(&self.sp());
+                    t.push_str(&self.ident(&name));
+                    if !args.is_empty() {
+                        t.push('(');
+                        for (i, a) in args.iter().enumerate() {
+                            if i > 0 {
+                                t.push(',');
+                                t.push_str(&self.osp());
+                            }
+                            t.push_str(&self.expr(a));
+                        }
+                        t.push(')');
+                    }
+                    return t;
+                }
                 let mut t = self.ident(&name);
                 for (i, a) in args.iter().enumerate() {
                     if i == 0 {
@@ -536,8 +568,8 @@ impl<'a> Pr<'a> {
             Stmt::If { arms, else_ } => {
                 for (k, (c, body)) in arms.iter().enumerate() {
                     let kw = if k == 0 { self.kw("IF") } else { self.kw("ELSEIF") };
-                    let s1 = self.sp();
                     let c = self.expr(c);
+                    let s1 = self.sp_before(&c);
                     let s2 = self.sp();
                     let t = self.kw("THEN");
                     let hp = if k == 0 { path.to_string() } else { format!("{}/arm{}", path, k) };
@@ -556,8 +588,8 @@ impl<'a> Pr<'a> {
             }
             Stmt::IfLine { cond, then_, else_ } => {
                 let a = self.kw("IF");
-                let s1 = self.sp();
                 let c = self.expr(cond);
+                let s1 = self.sp_before(&c);
                 let s2 = self.sp();
                 let t = self.kw("THEN");
                 let s3 = self.sp();
@@ -590,16 +622,20 @@ impl<'a> Pr<'a> {
                 let a = self.kw("SELECT");
                 let s1 = self.sp();
                 let b = self.kw("CASE");
-                let s2 = self.sp();
                 let e = self.expr(subject);
+                let s2 = self.sp_before(&e);
                 self.header(path, format!("{}{}{}{}{}", a, s1, b, s2, e));
                 for (k, (items, body)) in cases.iter().enumerate() {
                     let mut t = self.kw("CASE");
-                    t.push_str(&self.sp());
                     for (i, it) in items.iter().enumerate() {
                         if i > 0 {
                             t.push(',');
                             t.push_str(&self.osp());
+                        } else if let CaseItem::Val(e) = it {
+                            let first = self.expr(e);
+                            t.push_str(&self.sp_before(&first));
+                        } else {
+                            t.push_str(&self.sp());
                         }
                         match it {
                             CaseItem::Val(e) => t.push_str(&self.expr(e)),
@@ -650,13 +686,15 @@ impl<'a> Pr<'a> {
                 t.push_str(&self.expr(from));
                 t.push_str(&self.sp());
                 t.push_str(&self.kw("TO"));
-                t.push_str(&self.sp());
-                t.push_str(&self.expr(to));
+                let to_text = self.expr(to);
+                t.push_str(&self.sp_before(&to_text));
+                t.push_str(&to_text);
                 if let Some(s) = step {
                     t.push_str(&self.sp());
                     t.push_str(&self.kw("STEP"));
-                    t.push_str(&self.sp());
-                    t.push_str(&self.expr(s));
+                    let step_text = self.expr(s);
+                    t.push_str(&self.sp_before(&step_text));
+                    t.push_str(&step_text);
                 }
                 self.loop_line(path, t);
                 self.block(path, "b", body);
@@ -669,8 +707,8 @@ impl<'a> Pr<'a> {
             }
             Stmt::While { cond, body } => {
                 let a = self.kw("WHILE");
-                let s = self.sp();
                 let c = self.expr(cond);
+                let s = self.sp_before(&c);
                 self.loop_line(path, format!("{}{}{}", a, s, c));
                 self.block(path, "b", body);
                 let w = self.kw("WEND");
@@ -687,8 +725,8 @@ impl<'a> Pr<'a> {
                 let l = self.kw("LOOP");
                 let k = self.kw(kw);
                 let s1 = self.sp();
-                let s2 = self.sp();
                 let c = self.expr(cond);
+                let s2 = self.sp_before(&c);
                 if top {
                     self.loop_line(path, format!("{}{}{}{}{}", d, s1, k, s2, c));
                     self.block(path, "b", body);
